@@ -18,17 +18,19 @@ struct LibToRef {
     big: bool,
     scratch: Scratch,
 }
-// axes: texture(6) comp(3) crypto(3) listfile(2) shift version(2)
+// axes: texture(6) comp(3) crypto(3) listfile(2) shift version(2; thorough 4) sector_crc(1; thorough 2) attributes(1; thorough 3)
 impl LibToRef {
     fn new(tier: Tier) -> Self {
-        let shifts: Vec<u16> = tier.pick(vec![0, 3], vec![0, 1, 3, 5, 8]);
-        let radices = vec![6, 3, 3, 2, shifts.len() as u64, 2];
+        let shifts: Vec<u16> = tier.pick(vec![0, 3], vec![0, 1, 2, 3, 4, 5, 6, 7, 8]);
+        // thorough: the V3/V4 headers as well (the reference reads their classic hash/block tables), sector
+        // checksums (one more sector-table entry, which the reference skips) and the (attributes) file
+        let radices = vec![6, 3, 3, 2, shifts.len() as u64, tier.pick(2, 4), tier.pick(1, 2), tier.pick(1, 3)];
         LibToRef { shifts, radices, big: true, scratch: Scratch::new("c02a") }
     }
     fn decode(&self, i: u64) -> (Config, usize) {
         let d = gen::mixed_radix(i, &self.radices);
         (
-            Config { comp: COMP3[d[1] as usize], crypto: d[2] as usize, crc: false, attrs: 0, listfile: d[3] == 0, tcomp: false, shift: self.shifts[d[4] as usize], version: d[5] as usize },
+            Config { comp: COMP3[d[1] as usize], crypto: d[2] as usize, crc: d[6] == 1, attrs: d[7] as usize, listfile: d[3] == 0, tcomp: false, shift: self.shifts[d[4] as usize], version: d[5] as usize },
             d[0] as usize,
         )
     }
@@ -146,6 +148,9 @@ impl Space for LibToRef {
                     got.sort();
                     let mut want: Vec<String> = files.iter().map(|f| fold(&f.0)).collect();
                     want.push("(LISTFILE)".into());
+                    if cfg.attrs != 0 {
+                        want.push("(ATTRIBUTES)".into());
+                    }
                     want.sort();
                     if got != want {
                         r.viol("listfile read by the reference differs from the added names", format!("{got:?} vs {want:?}"));
